@@ -65,6 +65,8 @@ struct Result {
     std::vector<Violation> violations;
     std::set<std::string> violation_keys;
     std::string internal_error;
+    uint64_t digest = 0;      // order-independent digest of every observable result of the run (used by the C10 fill differential)
+    void mix(const std::string& observable) { uint64_t h = 1469598103934665603ull; for (unsigned char ch : observable) { h ^= ch; h *= 1099511628211ull; } digest += h * 0x9e3779b97f4a7c15ull + 1; }
     bool exhaustive = true;
     std::vector<std::string> caps_hit;
     std::chrono::steady_clock::time_point t0 = std::chrono::steady_clock::now();
@@ -103,6 +105,7 @@ struct Result {
             o << "}";
         }
         sep(); o << "\"samples\":["; for (size_t i = 0; i < samples.size(); i++) { if (i) o << ","; o << samples[i]; } o << "]";
+        { char db[40]; snprintf(db, sizeof db, "%016llx", (unsigned long long)digest); sep(); o << "\"digest\":\"" << db << "\""; }
         sep(); o << "\"exhaustive\":" << (exhaustive ? "true" : "false");
         sep(); o << "\"caps_hit\":["; for (size_t i = 0; i < caps_hit.size(); i++) { if (i) o << ","; o << jesc(caps_hit[i]); } o << "]";
         o << "},\"assumptions\":[";
